@@ -184,6 +184,14 @@ class CHECK(Check):
             return ("#" * fd["start"] + body)[: rng.randint(0, fd["start"] + len(body))]
         return "#" * fd["start"] + body.ljust(n) + rng.choice(["", "tail", "9"])
 
+    def extra(self, tier, seed):
+        """the reference interpretation is the model's int()/float()/strip()/strptime/UTF-8/numpy codecs: compare
+        those primitives with the real CPython/numpy ones directly"""
+        from .. import prims
+        n, kinds, bad = prims.run(tier, seed, lite=(tier == "quick"))
+        return {"what": "primitive-level correspondence (model of CPython/numpy builtins vs the real ones)", "evaluations": n,
+                "by_kind": kinds, "problems": ["%s %r expected %r model %r" % b for b in bad[:5]]}
+
     def impl(self, case):
         from cfinterface.components.line import Line
         f = fl.mk_field(case["fd"])
